@@ -104,7 +104,7 @@ theorem parseAtom_closer (js : Bool) (c : UInt8) (r : Bytes) (h : closer c = tru
   simp only [closer, Bool.or_eq_true, beq_iff_eq] at h
   unfold parseAtom
   rcases h with (h | h) | h <;> subst h <;> cases js <;>
-    simp [stripPrefix, kwNull, kwTrue, kwFalse, kwUndefined, kwNewDate, List.takeWhile, isNumber, isNumChar, isDigit]
+    simp [stripPrefix, kwNull, kwTrue, kwFalse, kwUndefined, kwNewDate, kwNaN, List.takeWhile, isNumber, isNumChar, isDigit]
 
 /-- a text that decodes starts (after white space) with a byte that is not `,` `]` `}` -/
 theorem parseValue_head (js : Bool) (f : Nat) (s : Bytes) (x : Data × Bytes)
@@ -196,7 +196,7 @@ theorem parsesTo_false (js : Bool) : ParsesTo js kwFalse (.bool false) := by
 
 /-- facts about the first byte of a number token, all 256 bytes -/
 def numStartCheck (c : UInt8) : Bool :=
-  !isNumChar c || (startOK c && c != 0x5B && c != 0x7B && c != 0x22 && c != 0x6E && c != 0x74 && c != 0x66 && c != 0x75)
+  !isNumChar c || (startOK c && c != 0x5B && c != 0x7B && c != 0x22 && c != 0x6E && c != 0x74 && c != 0x66 && c != 0x75 && c != 0x4E)
 
 theorem numStartCheck_all : allBytes numStartCheck = true := by decide +kernel
 
@@ -226,7 +226,7 @@ theorem parsesTo_num (js : Bool) (tok : Bytes) (hn : isNumber tok = true)
       simp only [List.all_cons, Bool.and_eq_true] at ha; exact ha.1
     have hk := allBytes_spec numStartCheck_all c
     simp only [numStartCheck, hc, Bool.not_true, Bool.false_or, Bool.and_eq_true, bne_iff_ne, ne_eq] at hk
-    obtain ⟨⟨⟨⟨⟨⟨⟨k0, k1⟩, k2⟩, k3⟩, k4⟩, k5⟩, k6⟩, k7⟩ := hk
+    obtain ⟨⟨⟨⟨⟨⟨⟨⟨k0, k1⟩, k2⟩, k3⟩, k4⟩, k5⟩, k6⟩, k7⟩, k8⟩ := hk
     apply parsesTo_of_atom js c t _ k0 k1 k2 k3
     intro rest hd
     refine ⟨rest, ?_, skipWs_delim js rest hd⟩
@@ -247,10 +247,30 @@ theorem parsesTo_num (js : Bool) (tok : Bytes) (hn : isNumber tok = true)
     have n5 : (if js = true then stripPrefix kwNewDate (c :: t ++ rest) else none) = none := by
       have : (0x6E == c) = false := by simpa using (Ne.symm k4)
       cases js <;> simp [stripPrefix, kwNewDate, this]
-    rw [n1, n2, n3, n4, n5]
+    have n6 : (if js = true then stripPrefix kwNaN (c :: t ++ rest) else none) = none := by
+      have : (0x4E == c) = false := by simpa using (Ne.symm k8)
+      cases js <;> simp [stripPrefix, kwNaN, this]
+    rw [n1, n2, n3, n4, n5, n6]
     have e1 : (c :: t ++ rest).takeWhile isNumChar = c :: t := takeWhile_append_of_all (c :: t) rest ha hd2
     have e2 : (c :: t ++ rest).dropWhile isNumChar = rest := dropWhile_append_of_all (c :: t) rest ha hd1
     simp only [e1, e2, hn, if_true]
+
+/-- JavaScript: the global `NaN` -/
+theorem parsesTo_nan : ParsesTo true kwNaN (.num kwNaN) := by
+  apply parsesTo_of_atom true 0x4E [0x61, 0x4E] _ (by decide) (by decide) (by decide) (by decide)
+  intro rest hd
+  refine ⟨rest, ?_, skipWs_delim true rest hd⟩
+  unfold parseAtom
+  have n1 : ∀ z, stripPrefix kwNull (0x4E :: z) = none := by intro z; simp [stripPrefix, kwNull]
+  have n2 : ∀ z, stripPrefix kwTrue (0x4E :: z) = none := by intro z; simp [stripPrefix, kwTrue]
+  have n3 : ∀ z, stripPrefix kwFalse (0x4E :: z) = none := by intro z; simp [stripPrefix, kwFalse]
+  have n4 : ∀ z, stripPrefix kwUndefined (0x4E :: z) = none := by intro z; simp [stripPrefix, kwUndefined]
+  have n5 : ∀ z, stripPrefix kwNewDate (0x4E :: z) = none := by intro z; simp [stripPrefix, kwNewDate]
+  simp only [List.cons_append]
+  rw [n1, n2, n3]
+  simp only [if_true, n4, n5]
+  have : 0x4E :: 0x61 :: 0x4E :: ([] ++ rest) = kwNaN ++ rest := by simp [kwNaN]
+  rw [this, stripPrefix_append]
 
 /-! ### strings -/
 
